@@ -430,6 +430,7 @@ def r3_check_then_commit(rep, src, A):
     why = None
     n_cases = 0
     for attr, private in comps.items():
+      for newval in (9, 0):         # 0: a value that is false but not None is converted and stored like any other
         for fail_first in (True, False):
             calls = []
 
@@ -444,7 +445,7 @@ def r3_check_then_commit(rep, src, A):
             before = dict(heap.objs[me.name])
             n_cases += 1
             try:
-                H.Interp(heap).call(H.Closure(f2.node, {}, me, f2.cls), [attr, 9])
+                H.Interp(heap).call(H.Closure(f2.node, {}, me, f2.cls), [attr, newval])
                 out = 'ok'
             except H.Raised as x:
                 out = x.exc
@@ -460,10 +461,10 @@ def r3_check_then_commit(rep, src, A):
                     why = why or 'after restoring %s the full version is not recomposed from the restored components' % attr
             else:
                 want = dict(before)
-                want[private] = '9'
+                want[private] = str(newval)
                 if out != 'ok' or after != want:
-                    why = why or 'an accepted assignment of %s = 9 leaves %r' % (attr, {k: v for k, v in after.items() if k.startswith('_BaseVersion__')})
-                elif len(calls) != 1 or calls[0].get(private) != '9':
+                    why = why or 'an accepted assignment of %s = %r leaves %r' % (attr, newval, {k: v for k, v in after.items() if k.startswith('_BaseVersion__')})
+                elif len(calls) != 1 or calls[0].get(private) != str(newval):
                     why = why or 'the full version is not recomposed after %s has been stored' % attr
     if why is None:
         rep.ok('C14.R3', f2.site, 'rollback restores saved value', '%d interpreted assignments: refused → ValueError and unchanged object, accepted → str(value) stored, recomposed once' % n_cases)
